@@ -13,6 +13,11 @@ def run_libcheck(Ms=(8, 16)):
     for M, r in zip(Ms, rs):
         for name, ok in r.tuples("LC"):
             out[(M, name)] = ok
+    rs = tlc.run_many([dict(module="CliffordCheck", cfg="CONSTANT M = %d\nINIT Init\nNEXT Next\n" % M, name="libcheck/cliff_M%d" % M)
+                       for M in Ms])
+    for M, r in zip(Ms, rs):
+        for name, ok in r.tuples("LC"):
+            out[(M, name)] = ok
     return out
 
 
